@@ -83,20 +83,40 @@ def main() -> int:
     if not report["confirmed"]:
         print("NOT CONFIRMED:", json.dumps(report["confirmation"]))
         print(o0[-500:], o1[-500:])
-    # 2. the checks against the patched /repo
-    rc, out = sh("git -C /repo status --porcelain")
-    if out.strip():
-        print("/repo is not clean:", out)
-        return 2
-    rc, out = sh(f"git -C /repo apply {patch}")
+    # 2. the checks against the patched tree.  The patch is applied to a scratch worktree of /repo's
+    # HEAD and the checks are pointed at it (VERIF_REPO), with evidence / replays / scratch redirected,
+    # so that /repo itself and the committed evidence are never touched and several seeds (or a
+    # background run on /repo) can go on at the same time.  `git -C /repo apply` + checkout is
+    # equivalent and is what --in-repo does.
+    in_repo = "--in-repo" in args
+    run_wt = "/repo" if in_repo else f"/tmp/wt/run_{sid}"
+    side = f"/tmp/wt/run_{sid}_out"
+    if in_repo:
+        rc, out = sh("git -C /repo status --porcelain")
+        if out.strip():
+            print("/repo is not clean:", out)
+            return 2
+    else:
+        sh(f"git -C /repo worktree remove --force {run_wt}")
+        rc, out = sh(f"git -C /repo worktree add --detach {run_wt} HEAD -q")
+        if rc:
+            print(out)
+            return 2
+    rc, out = sh(f"git apply {patch}", cwd=run_wt)
     if rc:
-        print("patch does not apply to /repo:", out)
+        print("patch does not apply:", out)
+        if not in_repo:
+            sh(f"git -C /repo worktree remove --force {run_wt}")
         return 2
+    env = dict(os.environ)
+    if not in_repo:
+        env.update(VERIF_REPO=run_wt, VERIF_EVIDENCE_DIR=side + "/evidence", VERIF_REPLAY_DIR=side +
+            "/replays", VERIF_SCRATCH_DIR=side + "/scratch")
     results = {}
     try:
         for c in checks:
             t = time.time()
-            rc, out = sh(["./check", c, tier], cwd=VERIF, timeout=7200)
+            rc, out = sh(["./check", c, tier], cwd=VERIF, timeout=7200, env=env)
             viol = [l for l in out.splitlines() if l.startswith("VIOLATION")]
             first = ""
             lines = out.splitlines()
@@ -107,10 +127,14 @@ def main() -> int:
             results[c] = {"exit": rc, "violations": len(viol), "first": first, "wall_s": round(
                 time.time() - t, 1)}
             print(f"[check] {c} {tier}: exit={rc} violations={len(viol)} {first[:160]}")
-            report["ran"].append(f"git -C /repo apply patch.diff; ./check {c} {tier}")
+            report["ran"].append(f"patch applied to a scratch worktree; VERIF_REPO=<worktree> ./check {c} {tier}")
     finally:
-        sh("git -C /repo checkout -- .")
-        sh("git -C /repo clean -fdq -- symplyphysics")
+        if in_repo:
+            sh("git -C /repo checkout -- .")
+            sh("git -C /repo clean -fdq -- symplyphysics")
+        else:
+            sh(f"git -C /repo worktree remove --force {run_wt}")
+            shutil.rmtree(side, ignore_errors=True)
     report["checks"] = results
     report["detected_by"] = sorted(c for c, r in results.items() if r["exit"] == 1 and
         r["violations"])
